@@ -186,7 +186,13 @@ public:
       return StartResult::err(lastError());
     }
 
-    _eventFd = ::eventfd(0, EFD_NONBLOCK | EFD_CLOEXEC);
+    {
+      // enqueue() reads _eventFd under _cmdMutex from any thread - also while a
+      // stopped transport is being started again - so publish it under the lock.
+      const int efd = ::eventfd(0, EFD_NONBLOCK | EFD_CLOEXEC);
+      std::lock_guard<std::mutex> g(_cmdMutex);
+      _eventFd = efd;
+    }
     if (_eventFd < 0)
     {
       setLastFatal(IoResult::failure(TransportError::Config, "eventfd: " + lastErr(), errno));
